@@ -264,7 +264,8 @@ func (m *Message) AddPadding() {
 			Data:  []Option{},
 		})
 	}
-	opts := m.Additional[p].Data.([]Option)
+	// An OPT record without options may have no Data at all.
+	opts, _ := m.Additional[p].Data.([]Option)
 	opts = slices.DeleteFunc(opts, func(opt Option) bool {
 		return opt.Code == 12 // Padding
 	})
